@@ -656,3 +656,114 @@ Proof.
     unfold rot_clamp, rot_centre_samples, rot_centre_slots. cbn [map fold_left]. reflexivity.
   - cbv zeta. rewrite Acc. reflexivity.
 Qed.
+
+(** ** the constructors: members, refusals, and the table after the genHInfo calls of the constructor body *)
+Lemma rg_in_zrange n j : In j (zrange n) <-> 0 <= j < n.
+Proof.
+  unfold zrange. rewrite in_map_iff. split.
+  - intros [k [E H]]. apply in_seq in H. lia.
+  - intros H. exists (Z.to_nat j). split; [lia|]. apply in_seq. lia.
+Qed.
+
+Lemma rg_members_ok a : valid_it (ra_it a) ->
+  rg_xs a = ra_xs a /\ rg_ys a = ra_ys a /\ rg_it a = ra_it a /\ rg_ip a = ra_it a * ra_it a /\
+  rg_rms a = ra_rotmapsize a /\ rg_clamp a = ra_clamp a.
+Proof.
+  intros Hv. repeat split.
+  unfold rg_ip, gen_rot_ctor_ip. destruct Hv as [H|[H|[H|H]]]; rewrite H; reflexivity.
+Qed.
+
+(** a map that was constructed with clamping is cubic and has a precomputed table *)
+Lemma rg_clamp_only_cubic_table a : rg_throws a = false -> ra_clamp a = true -> ra_it a = 4 /\ 0 < ra_rotmapsize a.
+Proof. unfold rg_throws, gen_rot_ctor_throws. intros H C. rewrite C in H. lia. Qed.
+
+Lemma rg_hinfo_size a : 0 <= ra_rotmapsize a -> 0 <= ra_it a -> ra_rotmapsize a * ra_it a * ra_it a < 2 ^ 64 ->
+  gen_rot_ctor_hinfo_size (ra_xs a) (ra_ys a) (ra_it a) (ra_rotmapsize a) = Z.max (ra_rotmapsize a * (ra_it a * ra_it a)) 16.
+Proof.
+  intros H1 H2 H3. unfold gen_rot_ctor_hinfo_size, rx_wrap64.
+  assert (0 <= ra_rotmapsize a * ra_it a) by (apply Z.mul_nonneg_nonneg; lia).
+  assert (ra_rotmapsize a * ra_it a <= ra_rotmapsize a * ra_it a * ra_it a \/ ra_it a = 0) by nia.
+  rewrite (Z.mod_small (ra_rotmapsize a * ra_it a)) by nia.
+  rewrite Z.mod_small by nia. f_equal. ring.
+Qed.
+
+Lemma rg_fold_blocks (W : Z -> Z -> (Z -> Z * Qc) -> Z -> Z * Qc) ip (calls : list (Z * (Z * Z))) H0 :
+  0 < ip ->
+  (forall q p old k, ~ (0 <= k < ip) -> W q p old k = old k) ->
+  (forall q p old old' k, 0 <= k < ip -> W q p old k = W q p old' k) ->
+  (forall c c', In c calls -> In c' calls -> c = c' \/ fst c + ip <= fst c' \/ fst c' + ip <= fst c) ->
+  forall c k, In c calls -> 0 <= k < ip ->
+    fold_left (rg_call W) calls H0 (fst c + k) = W (fst (snd c)) (snd (snd c)) rg_zero k.
+Proof.
+  intros Hip Hout Hind. induction calls as [|c' calls IH] using rev_ind; intros Hpw c k Hc Hk; [destruct Hc|].
+  rewrite fold_left_app. cbn [fold_left]. unfold rg_call at 1.
+  destruct (Hpw c c') as [E|Hd].
+  - exact Hc.
+  - apply in_or_app. right. left. reflexivity.
+  - subst c'. replace (fst c + k - fst c) with k by lia. apply Hind. exact Hk.
+  - assert (Hc' : In c calls).
+    { apply in_app_or in Hc. destruct Hc as [Hc|[Hc|[]]]; [exact Hc|]. subst c'. exfalso. lia. }
+    rewrite Hout by lia. replace (fst c' + (fst c + k - fst c')) with (fst c + k) by lia.
+    apply IH; [|exact Hc'|exact Hk].
+    intros d d' Hd1 Hd2. apply Hpw; apply in_or_app; left; assumption.
+Qed.
+
+Section CtorTable.
+  Variables (a : rg_args) (P : rot_par) (ax ay : Z -> Qc).
+  Hypothesis Hv : valid_it (ra_it a).
+  Hypothesis Hsz : 0 <= ra_xs a /\ 0 <= ra_ys a /\ ra_xs a * ra_ys a * (ra_it a * ra_it a) <= 2 ^ 32.
+  Hypothesis Hfill : ra_rotmapsize a <> 0.
+
+  Lemma rg_ctor_base q p : 0 <= q < ra_xs a -> 0 <= p < ra_ys a ->
+    wrap32 (wrap32 (wrap32 (q * ra_ys a) + p) * (ra_it a * ra_it a)) = (q * ra_ys a + p) * (ra_it a * ra_it a).
+  Proof.
+    intros Hq Hp. wrap_norm.
+    assert (0 < ra_it a * ra_it a) by (destruct Hv as [H|[H|[H|H]]]; rewrite H; lia).
+    assert (q * ra_ys a + p < ra_xs a * ra_ys a) by nia.
+    assert (0 <= q * ra_ys a + p) by nia.
+    apply rg_wrap32_small. nia.
+  Qed.
+
+  (** what the table holds after the constructor, on the range the genHInfo calls cover, whatever it held before *)
+  Theorem rg_ctor_table H0 s : 0 <= s < ra_xs a * ra_ys a * (ra_it a * ra_it a) ->
+    rg_ctor_hinfo a P ax ay H0 s = rg_table a P ax ay s.
+  Proof.
+    intros Hs. destruct (rg_members_ok a Hv) as [Exs [Eys [Eit [Eip [Erms Ecl]]]]].
+    unfold rg_ctor_hinfo, rg_table. rewrite Exs, Eys, Eit, Eip, Erms.
+    unfold gen_rot_ctor_nofill. destruct (Z.eqb_spec (ra_rotmapsize a) 0) as [E|_]; [contradiction|].
+    set (ip := ra_it a * ra_it a) in *.
+    assert (Hip : 0 < ip) by (unfold ip; destruct Hv as [H|[H|[H|H]]]; rewrite H; lia).
+    set (c := s / ip). set (k := s mod ip).
+    assert (Hk : 0 <= k < ip) by (apply Z.mod_pos_bound; lia).
+    assert (Hc : 0 <= c < ra_xs a * ra_ys a).
+    { split; [apply Z.div_pos; lia|apply Z.div_lt_upper_bound; lia]. }
+    assert (Hys : 0 < ra_ys a) by nia.
+    set (q := c / ra_ys a). set (p := c mod ra_ys a).
+    assert (Hp : 0 <= p < ra_ys a) by (apply Z.mod_pos_bound; lia).
+    assert (Hq : 0 <= q < ra_xs a).
+    { split; [apply Z.div_pos; lia|apply Z.div_lt_upper_bound; lia]. }
+    assert (Es : s = (q * ra_ys a + p) * ip + k).
+    { unfold q, p, k. rewrite (Z.mul_comm (c / ra_ys a)), <- (Z.div_mod c (ra_ys a)) by lia.
+      unfold c. rewrite (Z.mul_comm (s / ip)), <- (Z.div_mod s ip) by lia. reflexivity. }
+    rewrite Es at 1. clear Es Hc. clearbody q p k. clear c.
+    refine (rg_fold_blocks (rg_G (ra_xs a) (ra_ys a) (ra_it a) ip P ax ay) ip _ H0 Hip _ _ _ ((q * ra_ys a + p) * ip, (q, p)) k _ Hk).
+    - intros q' p' old k' Hk'. unfold rg_G. subst ip.
+      apply (rg_genHInfo_outside QcF rnd32 rg_id Qctrunc Qcfrac (ra_xs a) (ra_ys a) (ra_it a)); assumption.
+    - intros q' p' old old' k' Hk'. unfold rg_G. subst ip.
+      rewrite !(rg_genHInfo_row QcF rnd32 rg_id Qctrunc Qcfrac (ra_xs a) (ra_ys a) (ra_it a)) by assumption. reflexivity.
+    - intros d d' Hd Hd'. unfold gen_rot_ctor_calls in Hd, Hd'.
+      apply in_flat_map in Hd. destruct Hd as [q1 [Hq1 Hd]]. apply in_map_iff in Hd. destruct Hd as [p1 [Ed Hp1]].
+      apply in_flat_map in Hd'. destruct Hd' as [q2 [Hq2 Hd']]. apply in_map_iff in Hd'. destruct Hd' as [p2 [Ed' Hp2]].
+      apply rg_in_zrange in Hq1, Hp1, Hq2, Hp2. subst d d'. cbn [fst].
+      fold ip. unfold ip. rewrite !rg_ctor_base by assumption. fold ip. clearbody ip.
+      destruct (Z.eq_dec q1 q2) as [Eq|Nq]; [destruct (Z.eq_dec p1 p2) as [Ep|Np]|].
+      + left. subst q2 p2. reflexivity.
+      + right. subst q2. assert (p1 < p2 \/ p2 < p1) as [L|L] by lia; [left|right]; nia.
+      + right. assert (q1 < q2 \/ q2 < q1) as [L|L] by lia; [left|right].
+        * assert ((q1 + 1) * ra_ys a <= q2 * ra_ys a) by (apply Z.mul_le_mono_nonneg_r; lia). nia.
+        * assert ((q2 + 1) * ra_ys a <= q1 * ra_ys a) by (apply Z.mul_le_mono_nonneg_r; lia). nia.
+    - unfold gen_rot_ctor_calls. apply in_flat_map. exists q. split; [apply rg_in_zrange; exact Hq|].
+      apply in_map_iff. exists p. split; [|apply rg_in_zrange; exact Hp].
+      f_equal. fold ip. unfold ip. rewrite rg_ctor_base by assumption. reflexivity.
+  Qed.
+End CtorTable.
